@@ -1956,13 +1956,14 @@ func (m c8MT) MarshalJSONTo(enc *jsontext.Encoder) error {
 }
 
 type c8einfo struct {
+	never bool // not representable under any option (NaN map keys: several keys that would all be "NaN")
 	dup   bool // names collide under default options
 	bad   bool // some Go string (value or map key) is not valid UTF-8
 	dupAU bool // names collide once ill-formed bytes are replaced by U+FFFD
 }
 
 func (a *c8einfo) or(b c8einfo) {
-	a.dup, a.bad, a.dupAU = a.dup || b.dup, a.bad || b.bad, a.dupAU || b.dupAU
+	a.dup, a.bad, a.dupAU, a.never = a.dup || b.dup, a.bad || b.bad, a.dupAU || b.dupAU, a.never || b.never
 }
 
 var (
@@ -2044,7 +2045,7 @@ func c8topNames(obj []byte) (names []string, innerDup bool) {
 // value generates a Go value, its sanitized twin, and what is known about it.
 func (g *c8egen) value(depth int, nonNil bool) (v, san any, info c8einfo) {
 	r := g.r
-	k := r.IntN(13)
+	k := r.IntN(14)
 	if depth >= 4 {
 		k = r.IntN(5)
 	}
@@ -2232,11 +2233,23 @@ func (g *c8egen) value(depth int, nonNil bool) (v, san any, info c8einfo) {
 		}
 		info.dupAU = info.dupAU || info.dup
 		return m, ms, info
+	case 12:
+		t := g.rawObject(0)
+		_, d, _ := c8scan(t)
+		info.dup, info.dupAU = d, d
+		return jsontext.Value(t), jsontext.Value(t), info
 	}
-	t := g.rawObject(0)
-	_, d, _ := c8scan(t)
-	info.dup, info.dupAU = d, d
-	return jsontext.Value(t), jsontext.Value(t), info
+	// float keys: distinct NaNs are distinct Go map keys that would all serialize as "NaN"
+	m := map[float64]any{}
+	for i, n := 0, r.IntN(4); i < n; i++ {
+		key := float64(r.IntN(5)) / 2
+		if r.IntN(2) == 0 {
+			key = math.NaN()
+			info.never = true
+		}
+		m[key] = float64(i)
+	}
+	return m, m, info
 }
 
 var c8marshalEntry = []string{"Marshal", "MarshalWrite", "MarshalEncode"}
@@ -2287,8 +2300,8 @@ func c8encodeCase(c *Ctx, r *rand.Rand) {
 		return d
 	}
 	c.Hit(fmt.Sprintf("enc:%T", v))
-	c.Hit(fmt.Sprintf("enc-known:dup=%v,bad=%v,dupAU=%v", info.dup, info.bad, info.dupAU))
-	c.Case("M"+desc, info.dup || info.bad)
+	c.Hit(fmt.Sprintf("enc-known:dup=%v,bad=%v,dupAU=%v,nanKeys=%v", info.dup, info.bad, info.dupAU, info.never))
+	c.Case("M"+desc, info.dup || info.bad || info.never)
 	if (info.dup || info.bad) && r.IntN(3000) == 0 {
 		c.Sample(map[string]any{"marshal": trunc(desc, 400), "dup": info.dup, "invalidUTF8": info.bad})
 	}
@@ -2299,10 +2312,10 @@ func c8encodeCase(c *Ctx, r *rand.Rand) {
 		mustErr bool
 	}
 	variants := []variant{
-		{"default", nil, info.dup || info.bad},
-		{"AllowDuplicateNames", []json.Options{c8AD}, info.bad},
-		{"AllowInvalidUTF8", []json.Options{c8AU}, info.dupAU},
-		{"AllowDuplicateNames+AllowInvalidUTF8", []json.Options{c8AD, c8AU}, false},
+		{"default", nil, info.dup || info.bad || info.never},
+		{"AllowDuplicateNames", []json.Options{c8AD}, info.bad || info.never},
+		{"AllowInvalidUTF8", []json.Options{c8AU}, info.dupAU || info.never},
+		{"AllowDuplicateNames+AllowInvalidUTF8", []json.Options{c8AD, c8AU}, info.never},
 	}
 	var out0 []byte
 	for vi, vr := range variants {
@@ -2451,7 +2464,7 @@ func c8poisonEncode(c *Ctx, r *rand.Rand) {
 	var info c8einfo
 	for tries := 0; ; tries++ {
 		v, _, info = g.value(1, true)
-		if info.dup && !info.bad {
+		if info.dup && !info.bad && !info.never {
 			break
 		}
 		if tries > 200 {
